@@ -8,6 +8,8 @@ M=$1; WT=$2; shift 2
 LOG=$M/eval.txt
 ER=/tmp/mut/evalrepo; EV=/tmp/mut/evalverif
 echo "== $(date) $M" > $LOG
+# never fall through to the caller's directory: the clean-up below runs `git checkout -- .`
+[ -d "$WT/.git" ] || [ -f "$WT/.git" ] || { echo "worktree $WT missing" >> $LOG; echo "== done" >> $LOG; exit 3; }
 cd $WT && git checkout -q -- . && rm -f tests/demo.rs
 # how the demonstration is run: demo.sh if delivered, else tests/demo.rs (DEMO_FLAGS, e.g. "--features serde"; DEMO_DEVDEP adds a dev-dependency)
 rundemo() {
